@@ -192,8 +192,16 @@ class Family:
                     # a text longer than the csv module's default field size limit (131072 characters)
                     sample = sample[:2] + [(T0, "m", {"long": "y" * 131073}, {})]
                 path = os.path.join(d, f"f{i}.csv")
+                other = None
                 try:
+                    if i % 3 == 0:
+                        # a second database, under another dialect, is open and written to at the same time
+                        odial = dials[(i // 4 + 1 + i % 5) % 6]
+                        other = tf.TinyFlux(os.path.join(d, f"o{i}.csv"), **odial)
+                        other.insert(tf.Point(time=V.dt_of(T0), tags={"o": "a,b;c|d\te'f"}))
                     db = tf.TinyFlux(path, encoding=enc, **dial)
+                    if other is not None:
+                        other.insert(tf.Point(time=V.dt_of(T0 + 1), tags={"o": "a,b;c|d\te'f"}))
                     for j, pt in enumerate(sample):
                         db.insert(self.mkpoint(tf, pt), compact_key_prefixes=(j % 2 == 0))
                     if i % 2 == 1:
@@ -206,12 +214,24 @@ class Family:
                         db.remove(tf.TagQuery()["__kill2"] == "1")
                         if mid != [V.show_point(self.mkpoint(tf, pt)) for pt in sample]:
                             raise AssertionError("after a rewrite in the same session: " + str(mid)[:300])
+                    if other is not None:
+                        other.insert(tf.Point(time=V.dt_of(T0 + 2), tags={"o": "a,b;c|d\te'f"}))
+                        got_o = [p.tags.get("o") for p in other.all(sorted=False)]
+                        other.close()
+                        other = None
+                        if got_o != ["a,b;c|d\te'f"] * 3:
+                            raise AssertionError(f"a second database open at the same time (dialect {odial}) read back {got_o}")
                     db.close()
                     db2 = tf.TinyFlux(path, encoding=enc, access_mode="r", **dial)
                     got = [V.show_point(p) for p in db2.all(sorted=False)]
                     db2.close()
                 except Exception as e:
                     got = ["exc " + type(e).__name__ + ": " + str(e)[:80]]
+                    if other is not None:
+                        try:
+                            other.close()
+                        except Exception:
+                            pass
                 exp = [V.show_point(self.mkpoint(tf, pt)) for pt in sample]
                 stats["files"] += 1
                 stats["points"] += len(sample)
